@@ -25,7 +25,8 @@ ASSUMPTIONS = [
 ]
 
 
-def build(nag, a_steps, ag_steps, masks, gets, transports, a_type="time-based", until=6, extra_conn=True):
+def build(nag, a_steps, ag_steps, masks, gets, transports, a_type="time-based", until=6, extra_conn=True,
+          conn_kind="plain"):
     sims = [_sim("A", a_type, steps=a_steps)]
     conns, asyncs = [], []
     for i in range(nag):
@@ -44,7 +45,13 @@ def build(nag, a_steps, ag_steps, masks, gets, transports, a_type="time-based", 
         if transports[i]:
             s["transport"] = "mem"
         sims.append(s)
-        conns.append(_c("A", "po", sid, "mi"))
+        # the data-flow that accompanies the async_requests flag: plain, or only time-shifted / weak ones
+        if conn_kind == "shift":
+            conns.append(_c("A", "po", sid, "mi", shift=1, init=True))
+        elif conn_kind == "weak":
+            conns.append(_c("A", "po", sid, "mi", weak=True, init=True))
+        else:
+            conns.append(_c("A", "po", sid, "mi"))
         asyncs.append(["A", sid])
     return {"tree": [s["sid"] for s in sims], "sims": sims, "conns": conns, "async": asyncs,
             "initial_events": {}, "until": until, "world": {"cache": True}, "run": {"lazy_stepping": True}}
@@ -147,6 +154,10 @@ def micro():
     out.append(build(1, [1], [[1]], [[1]], [[0]], [0], until=4))
     out.append(build(2, [2], [[1], [2]], [[1, 0], [1]], [[0], [1]], [0, 1], until=5))
     out.append(build(2, [1], [[2], [3]], [[1], [1, 1, 0]], [[1], [0]], [1, 1], a_type="hybrid", until=6))
+    out.append(build(1, [1], [[1]], [[1]], [[0]], [0], until=5, conn_kind="shift"))
+    w = build(2, [1], [[1], [2]], [[1], [1]], [[0], [0]], [0, 1], until=4, conn_kind="weak")
+    w["tree"] = [w["tree"]]
+    out.append(w)
     return out
 
 
@@ -197,9 +208,10 @@ def shard(prop, tier, seed, shard, nshards):
         masks = [draw(st.lists(st.integers(0, 1), min_size=1, max_size=4)) for _ in range(nag)]
         gets = [draw(st.lists(st.sampled_from([0, 0, 1]), min_size=1, max_size=3)) for _ in range(nag)]
         tr = [draw(st.sampled_from([0, 0, 1])) for _ in range(nag)]
+        ck = draw(st.sampled_from(["plain", "plain", "shift", "weak"]))
         scn = build(nag, a_steps, ag_steps, masks, gets, tr, a_type=draw(st.sampled_from(["time-based", "hybrid"])),
-                    until=draw(st.integers(2, 8)))
-        grouped = draw(st.sampled_from([0, 0, 1, 2]))
+                    until=draw(st.integers(2, 8)), conn_kind=ck)
+        grouped = draw(st.sampled_from([0, 0, 1, 2])) if ck != "weak" else 1
         if grouped == 1:
             scn["tree"] = [scn["tree"]]                      # everybody in one group
         elif grouped == 2:
